@@ -24,6 +24,7 @@ Qed.
 
 Local Arguments read_tag : simpl never.
 Local Arguments cstr : simpl never.
+Local Arguments tag_string : simpl never.
 Local Arguments identify : simpl never.
 Local Arguments head_of : simpl never.
 Local Arguments rd_of : simpl never.
@@ -41,7 +42,7 @@ Proof.
   intros W k n cu t t' fs H. unfold long_file in H. unfold op_read, get_current; simpl.
   destruct (nth n fs ENoDir) as [| |ct]; try discriminate.
   apply Nat.eqb_eq in H. rewrite !(read_tag_long pinned _ _ H).
-  destruct cu as [g|]; [destruct (identify g _) | destruct (find _ (w_ios W))]; simpl; repeat split; reflexivity.
+  destruct cu as [g|]; [destruct (identify _ g _) | destruct (find _ (w_ios W))]; simpl; repeat split; reflexivity.
 Qed.
 
 Lemma wr_ok : forall W k n cu t t' fs, writable fs n = true ->
